@@ -61,6 +61,9 @@ pub enum Op {
     Plan { plan: String },
     /// number of H1 events seen so far
     IoCount,
+    /// allocate `n` blocks cheaply: one 1-byte append to each of `n` fresh auxiliary topics
+    /// (a topic's first append always gets a block of its own); these topics are never read
+    Touch { inst: u8, n: u32 },
     /// leave the process through a normal `return` from main
     Exit,
     /// leave the process immediately with libc::_exit(0) (no destructors, no flush)
